@@ -74,7 +74,7 @@ def sqrt_bracket(x):
 def gen_case(rng):
     nd = rng.choice([1, 2, 2, 3])
     lc = rng.random() < 0.5
-    case = {"kind": "prox", "nd": nd, "k": rng.choice([1, 1, 2, 3, 5]), "nu": q(rng.choice([F(0), F(1), F(3, 2), F(5, 2), F(5)])),
+    case = {"kind": "prox", "nd": nd, "k": rng.choice([1, 1, 2, 3, 5]), "nu": rng.choice([q(F(0)), q(F(1)), q(F(3, 2)), q(F(5, 2)), q(F(5)), "7/10", "9/10", "13/10"]),
             "lc": lc, "cap": rng.choice([1, 2, 3, 128]), "dtype": rng.choice(["f64", "f64", "f32"]),
             "layout": rng.choice(["", "s", "o", "sv"]), "sol_dim": rng.choice([1, 2]),
             "off": q(rng.choice([F(0), F(-8)])), "noobj": (not lc) and rng.random() < 0.3}
@@ -185,7 +185,12 @@ class Run:
         if res == "skip":
             return None
         desc = f"{op['entry']}({op['arg']}: {op['kind']} at row {op['pos']} of {len(op['rows'])})"
-        post = self.snapshot()
+        try:
+            post = self.snapshot()
+        except (OverflowError, ValueError) as e:
+            return self.F_("C11", "oracle", f"{where}: malformed call {desc} "
+                           f"{'raised ' + str(exc) if res == 'raised' else 'was accepted without an error'} and left "
+                           f"non-finite values in the archive ({type(e).__name__}: {e})")
         if res == "accepted":
             if post != pre:
                 return self.F_("C11", "oracle", f"{where}: malformed call {desc} was accepted without an error and "
